@@ -14,18 +14,32 @@ ASSUME = ["S1 RandomState::new stubbed (no map is ever non-empty)", "S3 remote s
           "CBMC --max-field-sensitivity-array-size 2048", "Kani/CBMC memory model and std models"]
 
 
+def quick_shapes():
+    """16 shapes (two rounds on 8 workers, ~8 min): every extension-bearing field alone or nearly alone, the three entry points, and one
+    shape with everything; the full singleton / variant / combination lists are in the thorough tier."""
+    b = CertShape()
+    return [
+        b, replace(b, aki=True), replace(b, san=(1, 3)), replace(b, san=(0, 2)), replace(b, ku=1), replace(b, eku=(1, 7)), replace(b, nc=1),
+        replace(b, nc=2, nc_perm=(1,), nc_excl=(2,)), replace(b, nc=2, nc_perm=(0, 3)), replace(b, crl_dps=(2,)), replace(b, is_ca=1),
+        replace(b, is_ca=3, path_len=128), replace(b, custom=1, custom_crit=1),
+        replace(b, aki=True, san=(1, 3), ku=4, eku=(1, 2), nc=2, nc_perm=(1,), nc_excl=(3,), crl_dps=(2,), is_ca=3, path_len=5, custom=2, custom_crit=2),
+        replace(b, issuance=1, aki=True, san=(1,), ku=1, is_ca=2, serial=4, serial_b0=0x80),
+        replace(b, issuance=2, aki=True, san=(0,), eku=(2,), ku=1),
+    ]
+
+
 def singletons():
     b = CertShape()
     out = [b]
     out.append(replace(b, aki=True))
-    for k in range(6):
+    for k in range(5):
         out.append(replace(b, san=(k,)))
     for k in (1, 3, 5):
         out.append(replace(b, ku=k))
     out.append(replace(b, eku=(1,)))
     out.append(replace(b, eku=(7,)))
     out.append(replace(b, nc=1))
-    for k in range(5):
+    for k in range(4):
         out.append(replace(b, nc=2, nc_perm=(k,)))
     out.append(replace(b, nc=2, nc_excl=(2,)))
     out.append(replace(b, crl_dps=(1,)))
@@ -41,12 +55,11 @@ def singletons():
 def combos():
     b = CertShape()
     return [
-        replace(b, aki=True, san=(1, 3), ku=4, eku=(1, 2), nc=2, nc_perm=(1,), nc_excl=(3,), crl_dps=(2,), is_ca=3, path_len=5, custom=2, custom_crit=2),
-        replace(b, issuance=1, aki=True, san=(1,), ku=1, is_ca=0),
-        replace(b, issuance=2, aki=True, san=(0,), eku=(2,), ku=1),
         replace(b, issuance=1, aki=True, is_ca=2, ku=4, serial=4, serial_b0=0x80),
         replace(b, serial=3, serial_b0=0xff, ku=6, crl_dps=(1, 2)),
-        replace(b, serial=1, serial_b0=0x7f, custom=2, san=(5, 2)),
+        replace(b, serial=1, serial_b0=0x7f, custom=2, san=(1, 2)),
+        replace(b, serial=2, serial_b0=0x00, serial_b1=0x80, is_ca=2),
+        replace(b, serial=2, serial_b0=0x00, serial_b1=0x00, ku=1),
     ]
 
 
@@ -65,8 +78,9 @@ def run_mir(tier, seed):
 
 
 def spec(tier, seed):
-    shapes = singletons() + combos() + ring_shapes()
+    shapes = quick_shapes()
     if tier == "thorough":
+        shapes = quick_shapes() + singletons() + combos() + ring_shapes()
         b = CertShape()
         more = []
         for sl in (1, 3):
@@ -77,11 +91,12 @@ def spec(tier, seed):
             more.append(replace(b, ku=k))
         for k in (0, 2, 3, 4, 5, 6):
             more.append(replace(b, eku=(k, 7)))
+        more += [replace(b, san=(4,)), replace(b, san=(2, 4)), replace(b, san=(3, 3))]
         for iss in (1, 2):
             for ikl in (0, 1, 3, 4):
                 more.append(replace(b, issuance=iss, aki=True, ikid_len=ikl, kid_len=(ikl + 1) % 5, is_ca=2))
-        for k in range(5):
-            more.append(replace(b, nc=2, nc_perm=(k, (k + 1) % 5), nc_excl=((k + 2) % 5,)))
+        for k in range(4):
+            more.append(replace(b, nc=2, nc_perm=(k, (k + 1) % 4), nc_excl=((k + 2) % 4,)))
         for n in (0, 1, 2, 3, 4):
             for b0 in (0x01, 0x7f, 0x80, 0xff):
                 if n > 0:
@@ -90,11 +105,13 @@ def spec(tier, seed):
         for ca in (0, 1, 2, 3):
             for iss in (0, 1, 2):
                 more.append(replace(b, issuance=iss, is_ca=ca, aki=(iss > 0), san=(1,), ku=1))
-        seen = {s.key() for s in shapes}
-        for s in more:
-            if s.key() not in seen:
-                seen.add(s.key())
-                shapes.append(s)
+        shapes += more
+    seen, uniq = set(), []
+    for s in shapes:
+        if s.key() not in seen:
+            seen.add(s.key())
+            uniq.append(s)
+    shapes = uniq
     qs = [cert_query("c02", s, O_C02) for s in shapes]
     import c02_units
     qs += c02_units.queries(tier, seed)
